@@ -30,11 +30,11 @@ theorem sum_map_zero {g : Nat → Nat} (hg : ∀ x, g x = 0) : ∀ L : List Nat,
 
 /-- a successful `CreatePair` establishes the invariant for the new pair (with zero LP supply) -/
 theorem created_pair_inv {name : Asset → String} {w w' : World} {s : Nat} {f : List (Nat × Nat)}
-    {a0 a1 : Asset} {req : Requirements} {c : Option Nat} {np nl : Nat} {out : Out}
-    (hv : ValidOp w (.factory s f (.createPair a0 a1 req c np nl))) (hn : NewAddrs w np nl)
-    (h : exec name w (.factory s f (.createPair a0 a1 req c np nl)) = .ok (w', out)) :
+    {a0 a1 : Asset} {req : Requirements} {c ld : Option Nat} {np nl : Nat} {out : Out}
+    (hv : ValidOp w (.factory s f (.createPair a0 a1 req c ld np nl))) (hn : NewAddrs w np nl)
+    (h : exec name w (.factory s f (.createPair a0 a1 req c ld np nl)) = .ok (w', out)) :
     PairInv w' np a0 a1 nl ∧ supply w' nl = 0 := by
-  obtain ⟨_, htl, _⟩ := hv.fresh s f a0 a1 req c np nl rfl
+  obtain ⟨_, htl, _⟩ := hv.fresh s f a0 a1 req c ld np nl rfl
   simp only [exec, bind_ok_iff, pure_ok_iff, Prod.mk.injEq] at h
   obtain ⟨w1, h1, rfl, _⟩ := h
   unfold facExec at h1
@@ -60,7 +60,7 @@ theorem created_pair_inv {name : Asset → String} {w w' : World} {s : Nat} {f :
           { a0 := a0, a1 := a1, d0 := d0, d1 := d1, lp := nl, comm := c.getD defaultCommission, req := req,
             factory := w0.facAddr } else w0.pair a
         tok := fun a => if a = nl then some
-          { bal := fun _ => 0, allow := fun _ _ => none, supply := 0, minter := some np, decimals := 6 } else w0.tok a
+          { bal := fun _ => 0, allow := fun _ _ => none, supply := 0, minter := some np, decimals := ld.getD 6 } else w0.tok a
         registry := regInsert (pairKey (w0.rawId a0) (w0.rawId a1))
           { a0 := a0, a1 := a1, pair := np, lp := nl, d0 := d0, d1 := d1, req := req,
             comm := c.getD defaultCommission } w0.registry } nl = 0 := by
@@ -132,9 +132,9 @@ theorem pairInv_run {name : Asset → String} {p : Nat} {a0 a1 : Asset} {lp : Na
 /-- **C03_partial from genesis**: from the creation of a pair on, along any history none of whose swaps on the
 pair is in the window, the share value never decreases between any two points of the history -/
 theorem history_from_creation {name : Asset → String} {w w1 : World} {s : Nat} {f : List (Nat × Nat)}
-    {a0 a1 : Asset} {req : Requirements} {c : Option Nat} {np nl : Nat} {out : Out}
-    (hv : ValidOp w (.factory s f (.createPair a0 a1 req c np nl))) (hn : NewAddrs w np nl)
-    (h : exec name w (.factory s f (.createPair a0 a1 req c np nl)) = .ok (w1, out))
+    {a0 a1 : Asset} {req : Requirements} {c ld : Option Nat} {np nl : Nat} {out : Out}
+    (hv : ValidOp w (.factory s f (.createPair a0 a1 req c ld np nl))) (hn : NewAddrs w np nl)
+    (h : exec name w (.factory s f (.createPair a0 a1 req c ld np nl)) = .ok (w1, out))
     (ops₁ ops₂ : List Op) (hv₁ : ValidRun name w1 ops₁) (hv₂ : ValidRun name (run name w1 ops₁) ops₂)
     (hnw : NoWindowRun name np (run name w1 ops₁) ops₂) :
     NonDecr (viewOf (run name w1 ops₁) np a0 a1 nl) (viewOf (run name (run name w1 ops₁) ops₂) np a0 a1 nl) :=
@@ -177,9 +177,9 @@ theorem withdraw_live_after_history {name : Asset → String} {p : Nat} {a0 a1 :
 
 /-- the same from genesis: the pair was created by the factory, then anything happened -/
 theorem withdraw_live_from_creation {name : Asset → String} {w w1 : World} {s : Nat} {f : List (Nat × Nat)}
-    {a0 a1 : Asset} {req : Requirements} {c : Option Nat} {np nl : Nat} {out : Out}
-    (hv : ValidOp w (.factory s f (.createPair a0 a1 req c np nl))) (hn : NewAddrs w np nl)
-    (hc : exec name w (.factory s f (.createPair a0 a1 req c np nl)) = .ok (w1, out))
+    {a0 a1 : Asset} {req : Requirements} {c ld : Option Nat} {np nl : Nat} {out : Out}
+    (hv : ValidOp w (.factory s f (.createPair a0 a1 req c ld np nl))) (hn : NewAddrs w np nl)
+    (hc : exec name w (.factory s f (.createPair a0 a1 req c ld np nl)) = .ok (w1, out))
     (ops : List Op) (hvr : ValidRun name w1 ops)
     {h a : Nat} (hhp : h ≠ np) (ha1 : 1 ≤ a)
     (hab : a ≤ bal (run name w1 ops) (.token nl) h)
